@@ -83,6 +83,24 @@ func init() {
 	intrinsicsByName["github.com/cosmos/cosmos-sdk/types.NewIntFromUint64"] = func(e *Env, st *State, args []Val, rt types.Type, c *ssa.CallCommon) []Out {
 		return one(st, intVal(rt, tApp("bv2nat", e.term(st, args[0]))))
 	}
+	intrinsicsByName["github.com/cosmos/cosmos-sdk/types.NewCoin"] = func(e *Env, st *State, args []Val, rt types.Type, c *ssa.CallCommon) []Out {
+		// NewCoin(denom, amount) = Coin{denom, amount}; it panics on an invalid denomination or a negative amount (not modelled: noted)
+		e.notes["sdk.NewCoin: panic on invalid denom / negative amount not modelled"]++
+		stt, ok := rt.Underlying().(*types.Struct)
+		if !ok {
+			return e.havocCall(st, "sdk.NewCoin", args, rt)
+		}
+		v := e.zero(st, rt)
+		for i := 0; i < stt.NumFields(); i++ {
+			switch stt.Field(i).Name() {
+			case "Denom":
+				v = e.setField(st, v, i, args[0])
+			case "Amount":
+				v = e.setField(st, v, i, args[1])
+			}
+		}
+		return one(st, v)
+	}
 	// ---- Coin ----
 	intrinsicsByName[sdkCoin+"GetDenom"] = func(e *Env, st *State, args []Val, rt types.Type, c *ssa.CallCommon) []Out {
 		return one(st, e.coinField(st, args[0], "Denom"))
